@@ -145,6 +145,10 @@ def plan(tier, seed):
         p.append(("sim_equal", dict(skeleton="T1", script=sc, date="interior_half")))
     for sc in (SCRIPTS_T9[0], SCRIPTS_T9[3]):
         p.append(("sim_equal", dict(skeleton="T9", script=sc, date="interior_half", n=3)))
+    # a job shared by two usage patterns (per-usage-pattern dictionaries with two entries); only changes for which the
+    # really-updated model itself is right on this topology (finding R1 makes duration edits stale there)
+    for sk in ("T3", "T2"):
+        p.append(("sim_equal", dict(skeleton=sk, script=[num("job", "data_transferred")], date="first", n=2)))
     # the same instants written in zones east and west of UTC
     for d, z in (("first", "Asia/Tokyo"), ("first", "America/New_York"), ("interior", "Asia/Kolkata"), ("last", "America/Los_Angeles")):
         p.append(("sim_equal", dict(skeleton="T1", script=SCRIPTS_T1[0], date=d, date_tz=z)))
